@@ -43,10 +43,10 @@ Proof. exact get_last_some. Qed.
 Print Assumptions C13_selection_present.
 
 (* IPv4 before IPv6; addresses, MACs come from values of the matching kind only *)
-Theorem C13_addresses : forall vs pn up s4 s6 d4 d6 sp dp pr fi la sm dm rec,
-  c_src (common_flow vs pn up s4 s6 d4 d6 sp dp pr fi la sm dm rec)
+Theorem C13_addresses : forall vs pn pt up s4 s6 d4 d6 sp dp pr fi la sm dm rec,
+  c_src (common_flow vs pn pt up s4 s6 d4 d6 sp dp pr fi la sm dm rec)
   = opt_bind (opt_or (get_last (vdisc vs s4) rec) (get_last (vdisc vs s6) rec)) fval_ip
-  /\ c_smac (common_flow vs pn up s4 s6 d4 d6 sp dp pr fi la sm dm rec)
+  /\ c_smac (common_flow vs pn pt up s4 s6 d4 d6 sp dp pr fi la sm dm rec)
   = opt_bind (get_last (vdisc vs sm) rec) fval_string.
 Proof. intros. split; reflexivity. Qed.
 Print Assumptions C13_addresses.
@@ -59,7 +59,7 @@ Print Assumptions C13_addresses.
 Theorem C13_v9_protocol_and_times : forall rec d secs nanos,
   (get_last (vdisc v9_variants "Protocol") rec = Some (VProto d) -> d <> vdisc proto_variants "Unknown" ->
      c_pnum (v9_common_flow rec) = Some (proto_to_u8 d)
-     /\ c_ptype (v9_common_flow rec) = Some (proto_from_u8 (proto_to_u8 d)))
+     /\ c_ptype (v9_common_flow rec) = Some d)
   /\ (get_last (vdisc v9_variants "FirstSwitched") rec = Some (VDur secs nanos) ->
       (secs * 1000 + nanos / 1000000 < 2 ^ 32)%N ->
       c_first (v9_common_flow rec) = Some (secs * 1000 + nanos / 1000000)%N)
@@ -69,7 +69,7 @@ Theorem C13_v9_protocol_and_times : forall rec d secs nanos,
 Proof.
   intros rec d secs nanos. unfold v9_common_flow, common_flow. cbn [c_pnum c_ptype c_first c_last].
   split; [|split].
-  - intros H Hd. rewrite H. cbn [opt_bind v9_pnum option_map].
+  - intros H Hd. rewrite H. cbn [opt_bind v9_pnum v9_ptype option_map].
     destruct (N.eqb_spec d (vdisc proto_variants "Unknown")); [contradiction|]. split; reflexivity.
   - intros H Hb. rewrite H. cbn [opt_bind v9_upt]. apply N.ltb_lt in Hb. cbv zeta. now rewrite Hb.
   - intros H Hb. rewrite H. cbn [opt_bind v9_upt]. apply N.ltb_lt in Hb. cbv zeta. now rewrite Hb.
@@ -140,7 +140,7 @@ Print Assumptions C13_field_anchors.
 
 (* The full statement ("absent only when the record has no such field", "one flow per record")
    is FALSE of the faithful model: the known-finding classes, each with its witness.
-   K_C13_v9_protocol (narrowed by repair 39ac76d to the one protocol byte, 145, that decodes to
+   K_C13_v9_protocol (narrowed by repair 39ac76d to the protocol bytes, 145..254, that decode to
    Unknown): the record has the field, the view has no number; K_C13_v9_switched (narrowed to
    durations whose millisecond count exceeds 32 bits: an 8-byte FIRST_SWITCHED); K_C13_v9_width (narrowed by repair 555d804
    to values that do not fit the common field): a 4-byte port holding 70000 is absent; K_C13_ipfix_per_field: an IPFIX data set of one record with three
